@@ -96,6 +96,8 @@ type Master struct {
 	Behaviour func(t *SimTask, kind string) Outcome
 	// OnCall lets a harness observe calls as they happen (ownership joins).
 	OnCall func(c *CallRec)
+	// Observe is called at every framework call before OnCall (set by World: ownership history).
+	Observe func()
 	// AutoOffers: answer REVIVE (and SUBSCRIBE) with an offer round.
 	AutoOffers bool
 	Reconcile  bool // answer implicit reconciliation with one update per known task
@@ -160,6 +162,9 @@ func (m *Master) rec(c CallRec) *CallRec {
 	c.VT = int64(vrt.VNow())
 	m.Calls = append(m.Calls, c)
 	r := &m.Calls[len(m.Calls)-1]
+	if m.Observe != nil {
+		m.Observe()
+	}
 	if m.OnCall != nil {
 		m.OnCall(r)
 	}
